@@ -3,12 +3,16 @@
 
   * `allow_semantics`, `ignore_semantics`, `verdict_rule`   the verdict is the documented rule over the candidate names
   * `candidates_cover_destinations`                          server address, Host header and SNI are candidates
-  * `host_header_agrees_with_spec`                           regex scanner = RFC 9112 field syntax on every well-formed head
+  * `host_header_agrees_with_spec`                           regex scanner = RFC 9112 field syntax on every well-formed CRLF head
+  * `host_header_any_method_partial` / `_counterexample`     any token method: `HostHeaderAgreesAnyMethod` is FALSE (F-C19c)
+  * `host_header_eol_partial`, `host_header_bare_lf_counterexample`   bare-LF line ends: `HostHeaderAgreesBareLf` is FALSE (F-C19d)
   * `host_header_prefix_stable`, `decision_prefix_stable`    an answer on a prefix is final (TCP)
   * `decision_seg_independent_partial` / `_counterexample`   full statement `DecisionSegIndependent` is FALSE for the current
                                                              code (finding F-C19b); proved outside that class
+  * `datagram_decision_local`, `dtls_decision_prefix_stable`, `dtls_decision_seg_independent`   datagram transports
   * `ignored_is_passthrough`                                 verdict ignore ⇒ single relay layer, no hooks, byte streams exact
-  * `not_excluded_is_intercepted`
+  * `ignored_is_passthrough_to_the_end`, `half_close_propagation`   … through the closing events, for admissible histories
+  * `not_excluded_is_intercepted`, `passthrough_only_if_excluded`
   * `tls_ignore_passthrough`                                 ClientTLSLayer `ignore_connection` branch
 -/
 import MitmVerif.Lemmas.C19
@@ -125,6 +129,80 @@ example : hostHeader true (renderHead [0x47, 0x45, 0x54, 0x20, 0x2f, 0x20, 0x48,
 example : hostHeader true (renderHead [0x47, 0x45, 0x54, 0x20, 0x2f, 0x20, 0x48, 0x54, 0x54, 0x50, 0x2f, 0x31]
       [⟨[0x58], [0x20], [0x79], []⟩]) [] = .ok none := by decide
 
+/-! ### the wider readings of "as HTTP defines it": any token method, bare-LF line ends -/
+
+/-- `Host: a` -/
+private theorem hostFieldWF : (⟨[0x48, 0x6f, 0x73, 0x74], [0x20], [0x61], []⟩ : Field).WF := by
+  refine ⟨by decide, by decide, by decide, by decide, by decide, ?_, ?_⟩
+  · intro b hb; simp at hb; subst hb; decide
+  · intro b hb; simp at hb; subst hb; decide
+
+/-- The statement for ANY method token (RFC 9110 §9.1: `method = token`).  FALSE for the current code (F-C19c): the first
+    regex wants three letters at the start, see `_counterexample`. -/
+def HostHeaderAgreesAnyMethod : Prop :=
+  ∀ (method target : Bytes) (fs : List Field) (rest : Bytes),
+    method ≠ [] → (∀ x ∈ method, isTchar x = true) → target ≠ [] → (∀ x ∈ target, x ≠ CR ∧ x ≠ LF ∧ x ≠ 0x20) →
+    (∀ f ∈ fs, f.WF) →
+    hostHeader true (renderHead (requestLine method target) fs ++ rest) [] = .ok (specHost fs)
+
+/-- **host_header_any_method (partial)** — the statement for every token method whose first three characters are letters
+    (all IANA-registered methods, e.g. GET, BASELINE-CONTROL), any request target, any field lines. -/
+theorem host_header_any_method_partial (a b c : UInt8) (m target : Bytes) (fs : List Field) (rest : Bytes)
+    (ha : isAlpha a = true) (hb : isAlpha b = true) (hc : isAlpha c = true)
+    (hm : ∀ x ∈ m, isTchar x = true) (ht : ∀ x ∈ target, x ≠ CR ∧ x ≠ LF ∧ x ≠ 0x20) (hw : ∀ f ∈ fs, f.WF) :
+    hostHeader true (renderHead (requestLine (a :: b :: c :: m) target) fs ++ rest) [] = .ok (specHost fs) := by
+  have ht' : ∀ x ∈ target, x ≠ CR ∧ x ≠ LF := fun x hx => ⟨(ht x hx).1, (ht x hx).2.1⟩
+  have hal : ∀ y : UInt8, isAlpha y = true → isTchar y = true := fun y hy => by simp [isTchar, hy]
+  apply host_header_agrees_with_spec _ fs rest
+  · simpa using expected_of_request_line a b c m target [] ha hb hc hm ht'
+  · apply requestLine_no_cr _ _ _ ht'
+    intro x hx
+    simp only [List.mem_cons] at hx
+    rcases hx with e | e | e | e
+    · rw [e]; exact hal a ha
+    · rw [e]; exact hal b hb
+    · rw [e]; exact hal c hc
+    · exact hm x e
+  · exact hw
+
+/-- **host_header_any_method (counterexample)** — F-C19c: `M-SEARCH * HTTP/1.1 CRLF Host: a CRLF CRLF` (method token
+    `M-SEARCH`): HTTP defines Host = `a`, `_get_host_header` reports no Host header. -/
+theorem host_header_any_method_counterexample : ¬ HostHeaderAgreesAnyMethod := by
+  intro h
+  have := h [0x4d, 0x2d, 0x53, 0x45, 0x41, 0x52, 0x43, 0x48] [0x2a] [⟨[0x48, 0x6f, 0x73, 0x74], [0x20], [0x61], []⟩] []
+    (by decide) (by decide) (by decide) (by decide)
+    (by intro f hf; simp only [List.mem_cons, List.mem_nil_iff, or_false] at hf; subst hf; exact hostFieldWF)
+  revert this
+  decide
+
+/-- The statement for heads whose lines end in a bare LF (RFC 9112 §2.2 "MAY recognize a single LF as a line terminator";
+    mitmproxy's own HTTP/1 reader does).  FALSE for the current code (F-C19d): the scan only knows CRLF, see
+    `_counterexample`. -/
+def HostHeaderAgreesBareLf : Prop :=
+  ∀ (reqLine : Bytes) (fs : List Field) (rest : Bytes),
+    expected reqLine = true → CR ∉ reqLine → LF ∉ reqLine → (∀ f ∈ fs, f.WF) →
+    hostHeader true (renderHeadEol true reqLine fs ++ rest) [] = .ok (specHost fs)
+
+/-- the CRLF instance of the same rendering is exactly what `host_header_agrees_with_spec` proves -/
+theorem host_header_eol_partial (reqLine : Bytes) (fs : List Field) (rest : Bytes)
+    (hrl : expected reqLine = true) (hcr : CR ∉ reqLine) (hw : ∀ f ∈ fs, f.WF) :
+    hostHeader true (renderHeadEol false reqLine fs ++ rest) [] = .ok (specHost fs) := by
+  have : renderHeadEol false reqLine fs = renderHead reqLine fs := by
+    have hr : (fun f : Field => f.body ++ [CR, LF]) = Field.render := rfl
+    simp [renderHeadEol, renderHead, eol, hr]
+  rw [this]
+  exact host_header_agrees_with_spec reqLine fs rest hrl hcr hw
+
+/-- **host_header_bare_lf (counterexample)** — F-C19d: `GET / HTTP/1.1 LF Host: a LF LF`: HTTP (as mitmproxy's HTTP/1
+    reader applies it) defines Host = `a`; `_get_host_header` asks for more data for ever, so no verdict is ever taken. -/
+theorem host_header_bare_lf_counterexample : ¬ HostHeaderAgreesBareLf := by
+  intro h
+  have := h [0x47, 0x45, 0x54, 0x20, 0x2f, 0x20, 0x48, 0x54, 0x54, 0x50, 0x2f, 0x31, 0x2e, 0x31]
+    [⟨[0x48, 0x6f, 0x73, 0x74], [0x20], [0x61], []⟩] [] (by decide) (by decide) (by decide)
+    (by intro f hf; simp only [List.mem_cons, List.mem_nil_iff, or_false] at hf; subst hf; exact hostFieldWF)
+  revert this
+  decide
+
 /-- **host_header_prefix_stable** — an answer of `_get_host_header` on a prefix that does not end inside the request
     line is its answer on every extension. -/
 theorem host_header_prefix_stable (tcp : Bool) (p q ds : Bytes) (r : Option Bytes) (hp : reqLinePending p = false)
@@ -192,6 +270,65 @@ theorem decision_seg_independent_counterexample : ¬ DecisionSegIndependent := b
   revert this
   decide
 
+/-! ## datagram transports (UDP: DTLS, QUIC)
+
+  The property's segmentation clause speaks about how the network cuts a byte stream.  A datagram transport does not
+  re-segment: datagram boundaries are chosen by the sender and preserved, so two different datagram sequences are two
+  different inputs (and `_starts_like_quic` is documented to look at the size of what has arrived: at least 18 bytes).
+  What the clause leaves for datagrams is proved below: the verdict is a function of the datagrams up to the deciding one
+  (`datagram_decision_local`), and for a DTLS ClientHello spread over several datagrams/records the verdict taken when
+  the hello is complete is the verdict of everything sent (`dtls_decision_prefix_stable`,
+  `dtls_decision_seg_independent`).  The `example` after them shows that the TCP statement itself is false for
+  non-DTLS datagrams — by design: 10 bytes are "not QUIC", the same bytes followed by 10 more are. -/
+
+/-- **datagram_decision_local** — for any transport: once a verdict is given on the first k datagrams (segments), whatever
+    arrives later is never consulted; the verdict is a function of the deciding prefix alone. -/
+theorem datagram_decision_local {Pat : Type} (E : Env Pat) (c : Cfg Pat) (ds : Bytes) (dgs more : List Bytes) (p : Bytes)
+    (hd : decidingPrefix (fun d => ignoreConnection E c d ds) [] dgs = some p) :
+    askSegs (fun d => ignoreConnection E c d ds) [] (dgs ++ more) = ignoreConnection E c p ds :=
+  askSegs_append _ [] dgs more p hd
+
+/-- **dtls_decision_prefix_stable** — UDP: a verdict given on data that starts like a DTLS record (ClientHello complete,
+    or recognisably invalid) is unchanged by any further datagrams; QUIC detection cannot interfere. -/
+theorem dtls_decision_prefix_stable {Pat : Type} (E : Env Pat) (c : Cfg Pat) (p q ds : Bytes) (b : Bool)
+    (hudp : c.tcp = false) (hd : C13.startsLike true p = true)
+    (h : ignoreConnection E c p ds = .ok b) : ignoreConnection E c (p ++ q) ds = .ok b :=
+  ignoreConnection_append_dtls E c p q ds b hudp hd h
+
+/-- **dtls_decision_seg_independent** — UDP/DTLS: however the client spreads its DTLS first flight over datagrams, the
+    verdict taken at the first datagram at which `_ignore_connection` answers is the verdict on everything it sent. -/
+theorem dtls_decision_seg_independent {Pat : Type} (E : Env Pat) (c : Cfg Pat) (ds : Bytes) (dgs : List Bytes)
+    (p : Bytes) (hudp : c.tcp = false)
+    (hd : decidingPrefix (fun d => ignoreConnection E c d ds) [] dgs = some p)
+    (hdtls : C13.startsLike true p = true) :
+    askSegs (fun d => ignoreConnection E c d ds) [] dgs = ignoreConnection E c dgs.flatten ds := by
+  obtain ⟨h1, q, h2⟩ := askSegs_eq (fun d => ignoreConnection E c d ds) [] dgs p hd
+  simp only [List.nil_append] at h2
+  rw [h1, h2]
+  cases hv : ignoreConnection E c p ds with
+  | needMore =>
+    exfalso
+    clear h1 h2
+    generalize hacc : ([] : Bytes) = acc at hd
+    clear hacc
+    induction dgs generalizing acc with
+    | nil => simp [decidingPrefix] at hd
+    | cons s ss ih =>
+      simp only [decidingPrefix] at hd
+      cases hf : ignoreConnection E c (acc ++ s) ds with
+      | needMore => simp only [hf] at hd; exact ih _ hd
+      | ok b => simp only [hf] at hd; cases hd; rw [hf] at hv; cases hv
+  | ok b => exact (dtls_decision_prefix_stable E c p q ds b hudp hdtls hv).symm
+
+private def udpEnv : Env Bytes := { rx := fun r h => r.isPrefixOf h, validHost := fun _ => false, quic := fun _ => .ok (some [0x61]) }
+private def udpCfg : Cfg Bytes :=
+  { tcp := false, ignorePats := [[0x61]], allowPats := [], wireguard := false, peername := none,
+    address := some ([0x31], 443), clientSni := none }
+/-- why the TCP statement is not claimed for datagrams: ten bytes to port 443 are not QUIC (fewer than 18 bytes), the same
+    ten bytes followed by ten more are handed to the QUIC parser, whose SNI then matches — datagram sizes are input -/
+example : ignoreConnection udpEnv udpCfg (List.replicate 10 0) [] = .ok false
+    ∧ ignoreConnection udpEnv udpCfg (List.replicate 10 0 ++ List.replicate 10 0) [] = .ok true := by decide
+
 /-! ## passthrough -/
 
 /-- **ignored_is_passthrough** — (a) whenever the verdict is "ignore" the instantiated stack is the single relay layer
@@ -235,6 +372,62 @@ theorem ignored_is_passthrough {Pat : Type} (E : Env Pat) (c : NCfg Pat) (connec
       · exact ⟨hI.1, hI.2.1⟩
       · exact ⟨hI.1, hI.2⟩
       · exact ⟨hI.1, hI.2.1⟩
+
+/-- **ignored_is_passthrough_to_the_end** — the stream equality through the closing events.  For EVERY admissible history
+    (`AdmRun`: the environment delivers data and EOF only from a connection that is still readable and a connect result
+    only while one is awaited; for UDP the association does not end before the relay is active) that ends with the relay
+    finished (`done`): every byte received from either side — before the verdict, while connecting, after the other side's
+    half-close — was delivered to the other side, in order, exactly once, and both connections are unreadable, so nothing
+    can arrive that would be swallowed.  Together with `ignored_is_passthrough` this covers every phase a passed-through
+    connection can end in (undecided/connecting: queued; relay/done: delivered; failed/aborted: no server to relay to). -/
+theorem ignored_is_passthrough_to_the_end {Pat : Type} (E : Env Pat) (c : NCfg Pat) (connected : Bool) (evs : List Ev)
+    (hadm : AdmRun E c (Sess.init c.tcp connected) evs) :
+    let s := run E c (Sess.init c.tcp connected) evs
+    (s.phase = .done → (∀ b, sentTo b s.out = recvFrom b evs) ∧ s.client.canRead = false ∧ s.server.canRead = false) ∧
+    ((s.phase = .relay ∨ s.phase = .done) → ∀ b, sentTo b s.out = recvFrom b evs) := by
+  obtain ⟨hI, h2⟩ := run_inv2 E c (Sess.init c.tcp connected) [] evs (init_inv c.tcp connected)
+    (init_inv2 c.tcp connected) hadm
+  simp only [List.nil_append] at hI h2
+  have hdone : (run E c (Sess.init c.tcp connected) evs).phase = .done →
+      (∀ b, sentTo b (run E c (Sess.init c.tcp connected) evs).out = recvFrom b evs) ∧
+      (run E c (Sess.init c.tcp connected) evs).client.canRead = false ∧
+      (run E c (Sess.init c.tcp connected) evs).server.canRead = false := by
+    intro hp
+    unfold Inv2 at h2; rw [hp] at h2
+    exact ⟨h2.2.2, h2.1, h2.2.1⟩
+  refine ⟨hdone, ?_⟩
+  intro hp
+  rcases hp with hp | hp
+  · unfold MitmVerif.C19.Inv at hI; rw [hp] at hI
+    exact hI.2.2
+  · exact (hdone hp).1
+
+/-- **half_close_propagation** — TCPLayer.relay_messages on EOF: while the other side can still be read the EOF is passed on
+    as a half-close of the other side (once: only if that side is still writable) and the relay goes on, so the other
+    direction keeps flowing; when neither side can be read any more both connections that are not yet closed are closed
+    and the relay is finished. -/
+theorem half_close_propagation {Pat : Type} (E : Env Pat) (c : NCfg Pat) (s : Sess)
+    (hp : s.phase = .relay) (ht : s.tcp = true) (hf : s.flow = false) :
+    (s.server.canRead = true →
+      (step E c s .closeC).phase = .relay ∧
+      (step E c s .closeC).out = s.out ++ (if s.server.canWrite then [Out.close true true] else []) ∧
+      (step E c s .closeC).server = ⟨true, false⟩) ∧
+    (s.client.canRead = true →
+      (step E c s .closeS).phase = .relay ∧
+      (step E c s .closeS).out = s.out ++ (if s.client.canWrite then [Out.close false true] else []) ∧
+      (step E c s .closeS).client = ⟨true, false⟩) ∧
+    (s.server.canRead = false →
+      (step E c s .closeC).phase = .done ∧
+      (step E c s .closeC).out = s.out ++ (if s.server.closed then [] else [Out.close true false])
+          ++ (if s.client.canWrite then [Out.close false false] else [])) := by
+  refine ⟨?_, ?_, ?_⟩
+  · intro hs
+    simp [step, noteEv, hp, ht, relayEv, hs, Sess.emit, applyClose]
+  · intro hc
+    simp [step, noteEv, hp, ht, relayEv, hc, Sess.emit, applyClose]
+  · intro hs
+    simp [step, noteEv, hp, ht, hf, relayEv, hs, Sess.emit, Conn.closed]
+    cases s.client.canWrite <;> simp
 
 /-- **not_excluded_is_intercepted** — a verdict "not excluded" never yields a passthrough layer: the instantiated stack is
     non-empty and every layer in it makes the connection visible to addons (TLS/QUIC/HTTP/DNS layers, or a TCP/UDP layer
@@ -337,5 +530,16 @@ example : nextLayer cxEnv (cxN false) (exSeg1 ++ [0x62, 0x0d, 0x0a, 0x0d, 0x0a])
 /-- the TLS branch keeps waiting on an incomplete record and fails on garbage -/
 example : (([[0x16, 0x03], [0x01]] : List Bytes).foldl (tlsStep false) TlsSess.init).buf = [0x16, 0x03, 0x01]
     ∧ (([[0x47, 0x45, 0x54, 0x20, 0x2f]] : List Bytes).foldl (tlsStep false) TlsSess.init).failed = true := by decide
+
+/-- an admissible history through both EOFs: data before the verdict, connect afterwards, client EOF, server data after
+    the half-close, server EOF — everything delivered, relay finished -/
+example :
+    let evs : List Ev := [.dataC exSeg1, .dataC exSeg2, .connOk, .dataS [0x68, 0x69], .closeC, .dataS [0x21], .closeS]
+    AdmRun cxEnv (cxN false) (Sess.init true false) evs ∧
+    (run cxEnv (cxN false) (Sess.init true false) evs).phase = .done ∧
+    sentTo false (run cxEnv (cxN false) (Sess.init true false) evs).out = [0x68, 0x69, 0x21] := by
+  refine ⟨?_, by decide, by decide⟩
+  simp only [AdmRun, Adm]
+  decide
 
 end MitmVerif.Props.C19
